@@ -367,7 +367,98 @@ const HUGE_P: Regime = Regime {
     fees: &[(0, 0), (1000, 0), (123_456, 2), (1, 0)],
 };
 
-fn gen_case(rng: &mut Rng, out: &mut Out, id: String, tier: &str) {
+/// 8-decimal prices (crypto style), quantities that use all four decimals
+const FINE: Regime = Regime {
+    qtys: &[12_345, 1, 9_999, 10_001, 25_000, 33_333],
+    prices: &[(12_345_678, 8), (99_999_999, 8), (100_000_001, 8), (6_543_210_987, 8), (1, 8)],
+    fees: &[(0, 0), (1, 8), (12_345, 8), (25, 4)],
+};
+
+/// A decimal operand as text. `shapes` (oracle review C02-M2): now and then NOT normalised - the
+/// full scale with its trailing zeros (`1.5000`), or two more (`1.500000`) - so that equal values
+/// meet with different scales / mantissas (an exact close `B 1.50` / `S 1.5`).
+fn operand(rng: &mut Rng, shapes: bool, m: i64, scale: u32) -> String {
+    if shapes && rng.chance(40) {
+        let mut d = Decimal::new(m, scale);
+        if rng.chance(50) {
+            d.rescale(scale + 2);
+        }
+        d.to_string()
+    } else {
+        dec_str(m, scale)
+    }
+}
+
+/// Huge magnitudes that `rust_decimal` still computes EXACTLY (oracle review C02-M1): whole quantities of
+/// 1e8 .. 4e9 units at prices around 1e6 (notional 1e14 .. 4e15, the old cap was 7e8), where every ratio
+/// of quantities the code forms is a power of two - a position is increased only by doubling it (at most
+/// three times per life), reduced by halving, closed exactly, flipped to its mirror (any fee: the
+/// pro-rata share is one half) or flipped with an arbitrary remainder at zero fee - so the entry average,
+/// the pro-rata fees and the unrealised estimate never round and the 1e-18 tolerance plays no role.
+fn gen_case_exact_huge(rng: &mut Rng, out: &mut Out, id: String, tier: &str) {
+    out.case(id);
+    let engine = rng.chance(50);
+    let n = if engine { rng.range(1, 3) as usize } else { 1 };
+    if engine {
+        out.line(format!("init engine {n}"));
+    } else {
+        out.line("init pm");
+    }
+    const QTYS: [i64; 4] = [100_000_000, 200_000_000, 500_000_000, 123_456_789];
+    const PRICES: [(i64, u32); 6] =
+        [(1_000_000, 0), (2_500_000, 0), (99_999_999, 2), (12_345_678, 1), (750_000, 0), (1_000_001, 0)];
+    const FEES: [(i64, u32); 5] = [(0, 0), (1_000, 0), (123_456, 2), (5_000_000, 0), (1, 2)];
+    let len = rng.range(1, if tier == "thorough" { 40 } else { 24 });
+    // per slot: signed net (whole units), doublings of the current position
+    let mut nets = vec![0i64; n];
+    let mut doubled = vec![0u32; n];
+    let mut time = 0i64;
+    for k in 0..len {
+        let slot = rng.below(n as u64) as usize;
+        let net = nets[slot];
+        let (pm, ps) = *rng.pick(&PRICES);
+        let (mut fm, mut fs) = *rng.pick(&FEES);
+        let (side_buy, qty) = if net == 0 {
+            doubled[slot] = 0;
+            (rng.chance(50), *rng.pick(&QTYS))
+        } else {
+            match rng.below(10) {
+                0 | 1 | 2 => (net < 0, net.abs()), // exact close
+                3 | 4 => {
+                    doubled[slot] = 0;
+                    (net < 0, net.abs() * 2) // mirror flip
+                }
+                5 => {
+                    // flip with a remainder: the fee split is not a power of two, so no fee
+                    fm = 0;
+                    fs = 0;
+                    doubled[slot] = 0;
+                    (net < 0, net.abs() + *rng.pick(&QTYS))
+                }
+                6 | 7 if doubled[slot] < 3 => {
+                    doubled[slot] += 1;
+                    (net > 0, net.abs()) // double the position at another price
+                }
+                _ if net.abs() % 2 == 0 => (net < 0, net.abs() / 2), // halve it
+                _ => (net < 0, net.abs()),
+            }
+        };
+        if rng.chance(70) {
+            time += rng.range(1, 5);
+        }
+        out.line(format!(
+            "fill {} {slot} {time} {} {} {} {}",
+            k + 1,
+            if side_buy { "B" } else { "S" },
+            dec_str(pm, ps),
+            qty,
+            dec_str(fm, fs),
+        ));
+        nets[slot] += if side_buy { qty } else { -qty };
+    }
+}
+
+fn gen_case(rng: &mut Rng, out: &mut Out, id: String, tier: &str, shapes: bool) {
     out.case(id);
     let engine = rng.chance(50);
     let n = if engine { rng.range(1, 3) as usize } else { 1 };
@@ -382,6 +473,7 @@ fn gen_case(rng: &mut Rng, out: &mut Out, id: String, tier: &str) {
         3 => &HUGE_P,
         _ => &GRID,
     };
+    let regime = if shapes && rng.chance(50) { &FINE } else { regime };
     let mixed = rng.chance(10);
     // "wild" cases also carry inputs outside the property's quantifier (model/implementation
     // correspondence only: the spec driver stops talking about that instrument)
@@ -415,7 +507,7 @@ fn gen_case(rng: &mut Rng, out: &mut Out, id: String, tier: &str) {
         };
         let (pm, ps) = *rng.pick(reg.prices);
         let (fm, fs) = *rng.pick(reg.fees);
-        let mut fee = dec_str(fm, fs);
+        let mut fee = operand(rng, shapes, fm, fs);
         let mut apply = true;
         if wild && rng.chance(4) {
             qty = -qty; // the code takes |quantity|
@@ -443,8 +535,8 @@ fn gen_case(rng: &mut Rng, out: &mut Out, id: String, tier: &str) {
         out.line(format!(
             "fill {id} {instr} {time} {} {} {} {fee}",
             if side_buy { "B" } else { "S" },
-            dec_str(pm, ps),
-            dec_str(qty, SCALE),
+            operand(rng, shapes, pm, ps),
+            operand(rng, shapes, qty, SCALE),
         ));
         if apply {
             nets[slot] += if side_buy { qty.abs() } else { -qty.abs() };
@@ -481,7 +573,18 @@ fn generate(seed: u64, n_cases: usize, tier: &str) {
     }
     for _ in 0..n_cases {
         id += 1;
-        gen_case(&mut rng, &mut out, format!("r{id}"), tier);
+        gen_case(&mut rng, &mut out, format!("r{id}"), tier, false);
+    }
+    // on top of the cases above (which are generated exactly as before): decimal shapes and exact huge
+    // magnitudes (oracle review C02-M2 / C02-M1), from a generator of their own
+    let mut extra = Rng::new(seed ^ 0x5EED_C02);
+    for _ in 0..n_cases / 8 {
+        id += 1;
+        gen_case(&mut extra, &mut out, format!("s{id}"), tier, true);
+    }
+    for _ in 0..n_cases / 8 {
+        id += 1;
+        gen_case_exact_huge(&mut extra, &mut out, format!("h{id}"), tier);
     }
     out.flush();
 }
